@@ -225,8 +225,8 @@ struct RefillSpec { cfg: Cfg, phases: Vec<(usize, u64)>, kind: &'static str } //
 fn refill_specs(rng: &mut Rng, n: usize) -> Vec<RefillSpec> {
     let mut v = vec![];
     for i in 0..n {
-        let round = i / 4;
-        let s = match i % 4 {
+        let round = i / 5;
+        let s = match i % 5 {
             // tokens only: 5 tokens/s, the window counter cannot bind (at most 12 calls, max 50)
             0 => { let burst = 1 + (round % 3) as u32;
                    let sl = [700u64, 100, 300, 500][round % 4];
@@ -240,6 +240,12 @@ fn refill_specs(rng: &mut Rng, n: usize) -> Vec<RefillSpec> {
             // window counter binds although tokens remain; then expiry
             2 => RefillSpec { cfg: Cfg { window_ns: 600_000_000, max: 2, burst: 4 }, kind: "refill-window-binds",
                        phases: vec![(5, 0), (3, 150), (4, 800)] },
+            // a client hammering while over its limit: one call every 40-60 ms against 5 tokens/s - most calls are
+            // DENIED, and no denial may add budget (each denial is followed by little elapsed time)
+            4 => { let gap = [50u64, 40, 60][round % 3];
+                   let mut phases = vec![(2usize, 0u64)];
+                   for _ in 0..16 { phases.push((1, gap)); }
+                   RefillSpec { cfg: Cfg { window_ns: 10 * NS, max: 50, burst: 1 }, kind: "refill-hammer", phases } }
             // slow refill, burst 1: one token per 400 ms; 1000 ms would earn 2.5 tokens but the cap is 1
             _ => { let sl = [1000u64, 200, 600][round % 3];
                    RefillSpec { cfg: Cfg { window_ns: 4 * NS, max: 10, burst: 1 }, kind: "refill-slow",
@@ -289,7 +295,7 @@ fn main() {
     };
 
     // ---- refill cases run in background threads while the rest is generated
-    let nrefill = if args.thorough() { 80 } else { 8 };
+    let nrefill = if args.thorough() { 100 } else { 10 };
     let specs = refill_specs(&mut rng.fork(), nrefill);
     let refill_handle = std::thread::spawn(move || {
         let mut out = vec![];
